@@ -61,6 +61,7 @@ class World:
         self.key_to_t = {}
         self.sem_audit = None
         self.lat_mode = self.knobs.get('latency', 'none')
+        self.bw_events = []
 
     # ---- hooks called by stubs ---------------------------------------------
     def probe(self, name, n=1):
@@ -144,6 +145,10 @@ class World:
 
     def on_object_written(self, key, rec):
         pass
+
+    def on_bytes_moved(self, kind, ident, n):
+        if self.config is not None and self.config.get('max_bandwidth'):
+            self.bw_events.append((self.sim.now, self.sim.stamp(), n, (kind,) + tuple(ident)))
 
     def on_source_read(self, tidx, pos, n):
         t = self.transfers[tidx]
